@@ -3,12 +3,12 @@ package mon
 import (
 	"bytes"
 	"encoding/json"
-	"io"
-	"math/big"
-	"reflect"
 	"errors"
 	"fmt"
+	"io"
 	"math"
+	"math/big"
+	"reflect"
 	"strings"
 	"time"
 
